@@ -1,4 +1,13 @@
 import ZapVerif.Drv.EncOp
 namespace ZapVerif.Drv.C02
-def handle := ZapVerif.Drv.EncOp.handle
+open Lean ZapVerif.Drv
+
+/-- C02 also compares the nesting `zapcore.MapObjectEncoder` records with the model of memory_encoder.go -/
+def handle (op : Json) : R Json := do
+  let r ← EncOp.handle op
+  let m ← EncOp.mapSkeleton op
+  match r with
+  | Json.obj _ => return r.setObjVal! "map" m
+  | _ => return r
+
 end ZapVerif.Drv.C02
